@@ -7,6 +7,9 @@ CONSTANTS
   Shapes = {"longTail"}
   MaxShape = 1
   ShapeWithCorr = FALSE
+  MaxOps = 0
+  OpKinds = {}
+  Origins = {"loaded"}
   TweakChoice = {"plain", "tweaked"}
 INVARIANT Bounded
 PROPERTY Terminates
